@@ -21,6 +21,7 @@ func init() {
 		Explanation: "Lock discipline of live reconfiguration (RacerD/Eraser-style, type-based). For the structures named by the property (DNS server and its configuration, client registry, filter, query log, statistics, DHCPv4 server): " +
 			"(G) guarded-by: every field that is written after start-up has one lock held at all of its accesses (write mode at writes), using intra-procedural must-locksets plus must-entry locksets propagated over the VTA call graph; (X) re-entrancy: no lock is acquired while the same lock is held or may be held on entry through some call chain — including read-after-read on an RWMutex, which deadlocks as soon as a writer queues in between; " +
 			"(O) order: the lock-order graph built from all acquisitions (local and may-entry locksets) has no cycle; (L) no leak: a slice/map kept under a lock is not handed out of the critical section un-cloned by a function that takes the lock itself; (A) a field accessed through sync/atomic functions is accessed plainly (also as part of a whole-struct copy) only where a common lock orders the two. " +
+			"(S) no panic from a stale position: the refresh copies metadata back into the live list array by looking the list up again under the lock, never through an index remembered from before the unlocked download (the C15-D3 rule). " +
 			"Not decided: absence of all data races (instances of one type are conflated, third-party internals, happens-before through channels and sync.Once are not modelled), panics in general, well-formedness and latency of responses.",
 		RuleText:    "Must-lockset dataflow per function, must/may entry locksets by fixpoint over the VTA call graph, field accesses from SSA FieldAddr users.",
 		Assumptions: []string{"lock and field identity are type-based", "functions reachable only from start-up (table of init-phase callers) run before any concurrency", "VTA resolves the func-valued fields and interfaces on the DNS path"},
@@ -52,6 +53,8 @@ var c05InitCallers = map[string]string{
 
 func runC05(c *Ctx) {
 	p, r := c.P, c.R
+	// no panic: positions in the live list array are never carried across the unlocked download
+	refreshMetadata(c, "C05-S")
 	scope := func(fn *ssa.Function) bool { return c05Pkgs[core.PkgOf(fn)] }
 	ignore := func(fn *ssa.Function) bool {
 		_, ok := c05InitCallers[core.FuncKey(fn)]
